@@ -7,7 +7,9 @@
         alg = 0 (NULL): payload unchanged
         alg in 1..3:   payload' = payload xor KS(alg, key, count, bearer, dir)[1..Len(payload)]
      Mac(c, alg, key, count, bearer, dir)       over the message held in cell c
-        same guards; result of exactly 4 octets, all zero for alg = 0; the message and the key are not modified
+        same guards; result of exactly 4 octets, all zero for alg = 0; the message and the key are not modified;
+        the result is a FRESH cell owned by the caller (`res`): the caller may write into it (Scribble) or drop it
+        (Release); no later call reads or changes it
 
    The keystream KS is UNINTERPRETED: nothing is assumed about it except that it is a function of the five
    parameters only (stream cipher in additive mode).  TLC realises "for every function" by choosing the
@@ -15,7 +17,8 @@
    (`ks`); at most MaxPoints points per behaviour.  Ghost variables: `plain` (cell contents when loaded) and
    `odd` (points applied an odd number of times since) state the laws as invariants:
      Involution, LengthPreserved, PrefixStable, KsIndependent, Accounting;  as action properties:
-     ErrUntouched, GuardExact, NullIdentity, MacShape, MacPure.
+     ErrUntouched, GuardExact, NullIdentity, MacShape, MacPure, MacFresh (calls never change a result cell the caller
+     holds; with MacShape: the NULL MAC is all-zero whatever the caller wrote into earlier results), ResultOwned.
    The concrete keystreams are the business of C06; this module is about the API. *)
 EXTENDS Integers, Sequences, FiniteSets, Bitwise, TLC
 CONSTANTS Cells,        \* payload buffers
@@ -27,10 +30,12 @@ CONSTANTS Cells,        \* payload buffers
           Pats,         \* base payloads of length MaxLen; the payload universe is every prefix of a base payload
           MacVals,      \* possible MAC results of the non-NULL algorithms (4-tuples)
           MaxPoints,
+          MaxRes,       \* number of result cells (returned MACs) the caller keeps hold of
+          MacTop,       \* largest MAC symbol (1 in the model, 255 in the traces): writing = inverting every symbol
           Nil,          \* the nil payload (a model value: different from every sequence)
           WithNil       \* whether nil payloads are loaded
-VARIABLES cell, plain, odd, ks, last
-vars == <<cell, plain, odd, ks, last>>
+VARIABLES cell, plain, odd, ks, last, res
+vars == <<cell, plain, odd, ks, last, res>>
 Payloads == {SubSeq(p, 1, n) : p \in Pats, n \in 0..MaxLen}
 \* ----- the definitions shared with the trace specification
 GuardOK(alg, bearer, dir, isNil) == bearer <= 31 /\ dir <= 1 /\ ~isNil /\ alg \in 0..3
@@ -38,20 +43,22 @@ XorSeq(a, b) == LET n == Len(a) IN SubSeq([i \in 1..n |-> a[i] ^^ b[i]], 1, n)  
 Prefix(a, n) == SubSeq(a, 1, n)
 IsPrefixOf(a, b) == Len(a) <= Len(b) /\ Prefix(b, Len(a)) = a
 ZeroMac == <<0, 0, 0, 0>>
+InvT(m) == LET n == Len(m) IN SubSeq([i \in 1..n |-> MacTop - m[i]], 1, n)       \* what the caller's write leaves in a result cell
+Result(m) == [val |-> m, given |-> m, dirty |-> FALSE]
 \* -----
 Point == [alg : Algs \cap (1..3), key : Keys, cnt : Counts, bearer : Bearers \cap (0..31), dir : Dirs \cap (0..1)]
 Streams == [1..MaxLen -> Sym]
 \* `last` describes the call just made
 NoCall == [op |-> "none", c |-> 0, alg |-> 0, key |-> 0, cnt |-> 0, bearer |-> 0, dir |-> 0, err |-> FALSE, mac |-> <<>>]
 Init == /\ cell = [c \in Cells |-> Nil] /\ plain = [c \in Cells |-> Nil] /\ odd = [c \in Cells |-> {}]
-        /\ ks = <<>> /\ last = NoCall
+        /\ ks = <<>> /\ last = NoCall /\ res = <<>>
 Known == DOMAIN ks
 Load(c, p) == /\ cell' = [cell EXCEPT ![c] = p] /\ plain' = [plain EXCEPT ![c] = p] /\ odd' = [odd EXCEPT ![c] = {}]
-              /\ UNCHANGED ks
+              /\ UNCHANGED <<ks, res>>
               /\ last' = [NoCall EXCEPT !.op = "Load", !.c = c]
 Call(op, c, alg, key, cnt, bearer, dir, err, mac) ==
   [op |-> op, c |-> c, alg |-> alg, key |-> key, cnt |-> cnt, bearer |-> bearer, dir |-> dir, err |-> err, mac |-> mac]
-Encrypt(c, alg, key, cnt, bearer, dir) ==
+EncryptEffect(c, alg, key, cnt, bearer, dir) ==
   IF ~GuardOK(alg, bearer, dir, cell[c] = Nil)
   THEN /\ UNCHANGED <<cell, plain, odd, ks>>
        /\ last' = Call("Encrypt", c, alg, key, cnt, bearer, dir, TRUE, <<>>)
@@ -66,16 +73,27 @@ Encrypt(c, alg, key, cnt, bearer, dir) ==
        /\ odd' = [odd EXCEPT ![c] = IF q \in @ THEN @ \ {q} ELSE @ \cup {q}]
        /\ UNCHANGED plain
        /\ last' = Call("Encrypt", c, alg, key, cnt, bearer, dir, FALSE, <<>>)
+Encrypt(c, alg, key, cnt, bearer, dir) == EncryptEffect(c, alg, key, cnt, bearer, dir) /\ UNCHANGED res
+\* the MAC is returned in a fresh cell; the caller keeps hold of up to MaxRes results
 Mac(c, alg, key, cnt, bearer, dir) ==
   /\ UNCHANGED <<cell, plain, odd, ks>>
   /\ IF ~GuardOK(alg, bearer, dir, cell[c] = Nil)
-     THEN last' = Call("Mac", c, alg, key, cnt, bearer, dir, TRUE, <<>>)
-     ELSE \E m \in (IF alg = 0 THEN {ZeroMac} ELSE MacVals) : last' = Call("Mac", c, alg, key, cnt, bearer, dir, FALSE, m)
+     THEN last' = Call("Mac", c, alg, key, cnt, bearer, dir, TRUE, <<>>) /\ UNCHANGED res
+     ELSE \E m \in (IF alg = 0 THEN {ZeroMac} ELSE MacVals) :
+            /\ last' = Call("Mac", c, alg, key, cnt, bearer, dir, FALSE, m)
+            /\ res' = IF Len(res) < MaxRes THEN Append(res, Result(m)) ELSE res
+\* the caller writes into a result it holds / lets go of the oldest one
+Scribble(i) == /\ res' = [res EXCEPT ![i] = [val |-> InvT(@.val), given |-> @.given, dirty |-> ~@.dirty]]
+               /\ last' = [NoCall EXCEPT !.op = "Scribble"] /\ UNCHANGED <<cell, plain, odd, ks>>
+Release == /\ res # <<>> /\ res' = Tail(res)
+           /\ last' = [NoCall EXCEPT !.op = "Release"] /\ UNCHANGED <<cell, plain, odd, ks>>
 Loadable == Payloads \cup (IF WithNil THEN {Nil} ELSE {})
-Next == \E c \in Cells :
-          \/ \E p \in Loadable : Load(c, p)
-          \/ \E alg \in Algs, key \in Keys, cnt \in Counts, bearer \in Bearers, dir \in Dirs :
-               Encrypt(c, alg, key, cnt, bearer, dir) \/ Mac(c, alg, key, cnt, bearer, dir)
+Next == \/ \E c \in Cells :
+             \/ \E p \in Loadable : Load(c, p)
+             \/ \E alg \in Algs, key \in Keys, cnt \in Counts, bearer \in Bearers, dir \in Dirs :
+                  Encrypt(c, alg, key, cnt, bearer, dir) \/ Mac(c, alg, key, cnt, bearer, dir)
+        \/ \E i \in 1..Len(res) : Scribble(i)
+        \/ Release
 Spec == Init /\ [][Next]_vars
 \* ---------------------------------------------------------------- laws
 RECURSIVE XorAll(_,_)
@@ -95,4 +113,8 @@ GuardExact == [][IsCall(last') => (last'.err <=> ~GuardOK(last'.alg, last'.beare
 NullIdentity == [][(IsCall(last') /\ last'.alg = 0) => cell' = cell]_vars
 MacShape == [][(last'.op = "Mac" /\ ~last'.err) => (Len(last'.mac) = 4 /\ (last'.alg = 0 => last'.mac = ZeroMac))]_vars
 MacPure == [][last'.op = "Mac" => cell' = cell]_vars
+\* results are fresh cells: no call changes a result the caller holds (a successful Mac may only add one); what a held cell
+\* contains is what was returned, or what the caller wrote
+MacFresh == [][IsCall(last') => (Len(res') >= Len(res) /\ SubSeq(res', 1, Len(res)) = res)]_vars
+ResultOwned == \A i \in 1..Len(res) : res[i].val = (IF res[i].dirty THEN InvT(res[i].given) ELSE res[i].given)
 ==============================================================================
